@@ -19,6 +19,8 @@ static Fields gen(Tape &t) {
   f.seti("mode", t.below(2));
   f.seti("mm", t.below(2));
   f.seti("klass", k);
+  // recording manager only: the k-th allocation of the call fails once; success is then still held to the round trip
+  f.seti("fault", t.chance(3, 4) ? 0 : t.range(1, 6));
   return f;
 }
 
@@ -57,10 +59,20 @@ template <class A> static Verdict check_type(const Fields &f, bool *relativeBran
   bool useMm = f.geti("mm") != 0;
   typename A::Uri d, t;
   memset(&d, 0xA5, sizeof d);
+  int fault = useMm ? (int)f.geti("fault") : 0;
+  if (fault > 0) mm.fail_at = (uint64_t)fault;
   int rc = useMm ? A::RemoveBaseUriMm(&d, &ps.uri, &pb.uri, mode ? URI_TRUE : URI_FALSE, &mm.mm)
                  : A::RemoveBaseUri(&d, &ps.uri, &pb.uri, mode ? URI_TRUE : URI_FALSE);
   struct Cl { typename A::Uri *u; UriMemoryManager *m; bool on; ~Cl() { if (on) A::FreeUriMembersMm(u, m); } };
   Cl cd{&d, useMm ? &mm.mm : nullptr, true};
+  bool bit = mm.failed > 0;
+  mm.reset_plan();
+  if (bit && rc != 0) {
+    VF_REQUIRE(rc == URI_ERROR_MALLOC || ((!B.scheme || !S.scheme) && (rc == URI_ERROR_REMOVEBASE_REL_BASE || rc == URI_ERROR_REMOVEBASE_REL_SOURCE)), "%s: allocation %d failed but rc=%d", A::name(), fault, rc);
+    stats().hit("reference_creation_ran_out_of_memory");
+    return Verdict::pass();
+  }
+  if (bit) stats().hit("fault_bit_but_success_reported");
   if (!B.scheme || !S.scheme) {
     if (!B.scheme && !S.scheme) VF_REQUIRE(rc == URI_ERROR_REMOVEBASE_REL_BASE || rc == URI_ERROR_REMOVEBASE_REL_SOURCE, "%s: both relative but rc=%d", A::name(), rc);
     else if (!B.scheme) VF_REQUIRE(rc == URI_ERROR_REMOVEBASE_REL_BASE, "%s: base without scheme but rc=%d", A::name(), rc);
